@@ -124,7 +124,7 @@ func (h *c12H) witness() map[string]any {
 }
 
 func (h *c12H) viol(hard bool, key, what string) {
-	if !strings.HasPrefix(key, "c12:reopen-") && !strings.HasPrefix(key, "c12:consecutive-restart") && !strings.HasPrefix(key, "c12:peer-state:") {
+	if !strings.HasPrefix(key, "c12:reopen-") && !strings.HasPrefix(key, "c12:consecutive-restart") && !strings.HasPrefix(key, "c12:peer-state:") && !strings.HasPrefix(key, "c12:llst-timer:fresh-route-dropped") {
 		// context first, so that one key prefix names one root cause
 		key = "c12:" + h.m.ctx() + strings.TrimPrefix(key, "c12:")
 	}
@@ -561,10 +561,10 @@ func (h *c12H) check(tag string) {
 		}
 		ctx := "other"
 		switch {
-		case m.capChanged:
-			ctx = "after-capability-change"
 		case m.llgrEpisodes > 0:
 			ctx = "after-llgr-phase"
+		case m.capChanged:
+			ctx = "after-capability-change"
 		case !m.lastLossQualified && !m.up:
 			ctx = "after-non-qualifying-loss"
 		}
